@@ -6,6 +6,7 @@ import (
 	"github.com/ClickHouse/clickhouse-go/v2"
 	"github.com/metrico/qryn/ctrl/logger"
 	"github.com/metrico/qryn/ctrl/qryn/heputils"
+	"math"
 	"strconv"
 	"strings"
 	"time"
@@ -57,9 +58,14 @@ func rotateTables(db clickhouse.Conn, clusterName string, distributed bool, days
 	logger logger.ILogger, tables ...string) error {
 	var rotateTTLArr []string
 	for _, rp := range days {
-		intsevalSec := int32(rp.TTL.Seconds())
-		if intsevalSec < int32(minTTL.Seconds()) {
-			intsevalSec = int32(minTTL.Seconds())
+		// whole seconds by integer arithmetic, kept inside [minTTL, MaxInt32]: int32(rp.TTL.Seconds()) of a
+		// timeout beyond 68 years is implementation-defined (amd64: MinInt32, which then became the minimum)
+		intsevalSec := int64(rp.TTL / time.Second)
+		if intsevalSec < int64(minTTL/time.Second) {
+			intsevalSec = int64(minTTL / time.Second)
+		}
+		if intsevalSec > math.MaxInt32 {
+			intsevalSec = math.MaxInt32
 		}
 		rotateTTL := fmt.Sprintf("%s + toIntervalSecond(%d)",
 			insertTimeExpression,
